@@ -245,3 +245,14 @@ def run_case(case, rng):
             if multi is not case.FAIL:
                 case.check(len(multi) == 5 and all(r.get(e, 0.0) > 0 for e in multi), "sample(k):invalid", repr(multi))
     case.sig(k1, k2, k3, len(r1), len(r2), sum(p == 0 for p in r1.values()), buckets, w1, w2, mass > 0, common > 0)
+
+
+
+def parent_phase(tier, seed, jobs, tmp, envf):
+    """thorough tier: the repository's own test-suite under the ambient 'sample' monitor"""
+    if tier != "thorough":
+        return [], None
+    from mon.probe.ambient import run_ambient
+    rec = run_ambient({"sample"}, tmp, envf)
+    rec["prop"] = PROP
+    return [rec], {"ambient_test_suite": rec["sample"]}
